@@ -131,7 +131,8 @@ class SimSocket(object):
         w.nwrites += 1
         r = w.conn_write_outcome(idx)
         if r != 'ok':
-            w.rec({"k": "wrf", "sock": self.st.id, "exc": r})
+            fr, rest = codec.decode_client_frames(data)
+            w.rec({"k": "wrf", "sock": self.st.id, "exc": r, "op": fr[0]['op'] if len(fr) == 1 and not rest else -1})
             raise (OSError(32, 'Broken pipe (sim)') if r == 'error' else Boom('sendall'))
         w.on_write(self, data)
 
@@ -457,8 +458,19 @@ class World(object):
             # default script: one read per stream item, then EOF
             n = len(self.conn.get('stream') or [])
             steps = [{"kind": "data", "items": 1}] * n
-        self.cur['steps'] = i + 1
         s = dict(steps[i]) if i < len(steps) else {"kind": "eof"}
+        if s['kind'] == 'drain':
+            # repeat reads of `bytes` bytes (or seeded random sizes) until the scripted stream is exhausted
+            b = self.concretise_stream()
+            if self.spos >= len(b):
+                self.cur['steps'] = i + 1
+                return self.next_step()
+            nb = s.get('bytes', 1)
+            if nb == 'rand':
+                nb = self.rng.randint(1, s.get('max', 9))
+            s = {"kind": "data", "bytes": nb, "dt": s.get('dt', 0)}
+        else:
+            self.cur['steps'] = i + 1
         if s['kind'] == 'data':
             b = self.concretise_stream()
             if 'bytes' in s:
@@ -492,11 +504,16 @@ class World(object):
             self.ticks += dt
             self.rec({"k": "wait", "dt": dt, "ready": False, "want": want, "why": "silence"})
             return False
+        if self.cur.get('wait_broken'):
+            # a selector that failed keeps failing (EBADF / ECONNRESET do not heal)
+            self.rec({"k": "wait", "dt": 0, "ready": False, "want": want, "why": "raise"})
+            raise (OSError(9, 'Bad file descriptor (sim)') if self.cur['wait_broken'] == 'error' else Boom('wait'))
         s = self.next_step()
         if s['kind'] == 'silence':
             self.cur['silent'] = True
             s = {"kind": "timeout"}
         if s['kind'] == 'wait_raise':
+            self.cur['wait_broken'] = s.get('exc', 'error')
             self.rec({"k": "wait", "dt": 0, "ready": False, "want": want, "why": "raise"})
             raise (OSError(4, 'Interrupted (sim)') if s.get('exc', 'error') == 'error' else Boom('wait'))
         dt = s.get('dt', 0)
@@ -700,11 +717,17 @@ def run_scenario(sc):
     for h, v in sc.get('headers') or []:
         ws.add_header(h.encode('latin-1'), v.encode('latin-1'))
     Session = make_session_class(world, sc.get('selector', 'poll'))
+    _ck = sc.get('connect_kwargs') or {}
+    _t = lambda v, d: int(round((d if v is None else v) / world.tick)) if (d if v is None else v) else 0
+    world.rec({"k": "cfg", "poll": _t(_ck.get('poll', 5.0), 5.0), "ping_rate": _t(_ck.get('ping_rate', 30.0), 30.0),
+               "ping_timeout": _t(_ck.get('ping_timeout'), 0), "close_timeout": _t(_ck.get('close_timeout', 30.0), 0),
+               "auto_pong": bool(_ck.get('auto_pong', True)), "naddr": (sc.get('conns') or [{}])[0].get('naddr', 1),
+               "compress": bool((sc.get('ws_kwargs') or {}).get('compress', False))})
     mode = sc.get('mode', 'connect')
     react = sc.get('react') or {}
     counts = {}
     state = {'idx': 0, 'kept': [], 'abandon': None}
-    keep_events = sc.get('keep_events', False)
+    keep_events = sc.get('keep_events', True)
 
     def on_event(ev):
         i = state['idx']
